@@ -2,6 +2,7 @@ package main
 
 import (
 	"go/token"
+	"go/types"
 	"strings"
 
 	"golang.org/x/tools/go/ssa"
@@ -9,14 +10,14 @@ import (
 
 func init() {
 	register(
-		&Rule{ID: "AZ-SCOPE", Doc: "data derived from a non-authority block reaches only that iteration's private World.Clone(); nothing block-derived is stored into the authorizer", Run: ruleAZScope, Min: 6},
+		&Rule{ID: "AZ-SCOPE", Doc: "data derived from a non-authority block reaches only that iteration's private World.Clone(); nothing block-derived is stored into the authorizer", Run: ruleAZScope, Min: 3},
 		&Rule{ID: "AZ-RESETRULES", Doc: "authority-level rules are dropped (ResetRules) before any block world is cloned", Run: ruleAZResetRules, Min: 1},
 		&Rule{ID: "AZ-WORLDSEL", Doc: "authorizer/authority checks and policies query the authority-level world; block checks query their block's clone; every query follows a Run of its world; Query() uses the authority-level world", Run: ruleAZWorldSel, Min: 5},
-		&Rule{ID: "AZ-DISJ", Doc: "a check is recorded as failed exactly when none of its queries (full range) returned a fact", Run: ruleAZDisj, Min: 3},
+		&Rule{ID: "AZ-DISJ", Doc: "a check is recorded as failed exactly when none of its queries (full range) returned a fact", Run: ruleAZDisj, Min: 1},
 		&Rule{ID: "AZ-PRECEDENCE", Doc: "every return that can be nil or a policy verdict is dominated by len(errs)==0 evaluated after all check loops", Run: ruleAZPrecedence, Min: 3},
 		&Rule{ID: "AZ-POLICY", Doc: "policies are tried in order until the first one with a satisfied query; allow->nil, deny->ErrPolicyDenied, none->ErrNoMatchingPolicy", Run: ruleAZPolicy, Min: 5},
-		&Rule{ID: "AZ-LOAD", Doc: "every Authorize loads all authority facts and rules into the authority-level world before running it, and all facts and rules of a block into its clone before running that", Run: ruleAZLoad, Min: 4},
-		&Rule{ID: "AZ-REINTERN", Doc: "token facts/rules/checks enter a world only after fromDatalogX(token symbols) and convert(authorizer symbols)", Run: ruleAZReintern, Min: 7},
+		&Rule{ID: "AZ-LOAD", Doc: "every Authorize loads all authority facts and rules into the authority-level world before running it, and all facts and rules of a block into its clone before running that", Run: ruleAZLoad, Min: 2},
+		&Rule{ID: "AZ-REINTERN", Doc: "token facts/rules/checks enter a world only after fromDatalogX(token symbols) and convert(authorizer symbols)", Run: ruleAZReintern, Min: 3},
 	)
 }
 
@@ -881,7 +882,9 @@ func (rl *rangeLoop) isElemRoot(p *Prog, seq ssa.Value) bool {
 func (p *Prog) policyKindConsts() (allow, deny int64) {
 	allow, deny = -1, -1
 	sc := p.Pkgs["biscuit"].Types.Scope()
-	if c, ok := sc.Lookup("PolicyKindAllow").(interface{ Val() interface{ String() string } }); ok {
+	if c, ok := sc.Lookup("PolicyKindAllow").(interface {
+		Val() interface{ String() string }
+	}); ok {
 		_ = c
 	}
 	for _, n := range []string{"PolicyKindAllow", "PolicyKindDeny"} {
@@ -965,7 +968,8 @@ func ruleAZReintern(p *Prog, r *Reporter) {
 }
 
 // disjByContinue recognises the flag-less idiom:
-//   for checks { for queries { if satisfied { continue checks } }; errs = append(errs, ...) }
+//
+//	for checks { for queries { if satisfied { continue checks } }; errs = append(errs, ...) }
 func (c *azCtx) disjByContinue(p *Prog, inner, outer *rangeLoop, sameLoop func(*ssa.Call) bool, errsFinal ssa.Value) (bool, string) {
 	// the failure record: an append to a []error inside the outer loop, outside the inner loop
 	var app *ssa.Call
@@ -1097,6 +1101,17 @@ func ruleAZLoad(p *Prog, r *Reporter) {
 				okUncond = okUncond && rl.header.Dominates(run.Block()) && dominatedUnconditionally(c.fn, rl.header)
 			}
 		}
+		if !okUncond && !inBlock {
+			for _, cl := range callsIn(c.fn) {
+				cv, ok := cl.(*ssa.Call)
+				if !ok || !isCallTo(&cv.Call, "datalog.World.Run") || p.D(cv.Call.Args[0]) != p.D(add.Call.Args[0]) {
+					continue
+				}
+				if reachAvoiding(rl.doneBB, cv.Block(), nil) && !rl.body[cv.Block()] && p.loadedOnceIdiom(c.fn, rl, cv) {
+					okUncond = true
+				}
+			}
+		}
 		r.Check(okEach && okUncond, p.instrPos(add), name, "load "+what, "loaded on every call, element by element, before the world is run", firstNonEmpty(cond(!okEach, "an element of the "+what+" can be skipped"), "loading the "+what+" is conditional or not followed by Run of that world: after some histories (Query, a second Authorize) the "+what+" are missing from the evaluation"))
 	}
 	check("authority facts", ".facts", "AddFact", false)
@@ -1105,6 +1120,182 @@ func ruleAZLoad(p *Prog, r *Reporter) {
 		check("block facts", ".facts", "AddFact", true)
 		check("block rules", ".rules", "AddRule", true)
 	}
+}
+
+// loadedOnceIdiom: the loading loop rl may be skipped before run only under a boolean field of the
+// receiver that records "already loaded": the loop is on the flag's false side and cannot be skipped
+// there; the flag becomes true only after the loop has finished; and every function that replaces
+// the receiver's world clears the flag (so flag == true implies the content is in the current world).
+func (p *Prog) loadedOnceIdiom(fn *ssa.Function, rl *rangeLoop, run *ssa.Call) bool {
+	var flag *ssa.FieldAddr
+	var at *ssa.If
+	for _, g := range guardsOf(rl.header) {
+		u, ok := g.cond.(*ssa.UnOp)
+		if !ok || u.Op != token.MUL || g.val {
+			continue
+		}
+		fa, ok := u.X.(*ssa.FieldAddr)
+		if !ok || fa.X != ssa.Value(fn.Params[0]) {
+			continue
+		}
+		flag, at = fa, g.at
+	}
+	if flag == nil || at == nil {
+		return false
+	}
+	gb := at.Block()
+	if !(gb.Dominates(run.Block())) || !dominatedUnconditionally(fn, gb) {
+		return false
+	}
+	// on the not-yet-loaded side the loop cannot be skipped on the way to Run
+	for _, s := range gb.Succs {
+		if s == rl.header || s.Dominates(rl.header) {
+			if reachAvoiding(s, run.Block(), blockSet{rl.header: true}) && s != rl.header {
+				return false
+			}
+		}
+	}
+	fname := fieldName(flag)
+	recvT := deref(fn.Params[0].Type())
+	isFlagStore := func(st *ssa.Store) (isFlag bool, val string) {
+		fa, ok := st.Addr.(*ssa.FieldAddr)
+		if !ok || fieldName(fa) != fname || !types.Identical(deref(fa.X.Type()), recvT) {
+			return false, ""
+		}
+		if k, isK := st.Val.(*ssa.Const); isK && k.Value != nil {
+			return true, k.Value.String()
+		}
+		return true, "?"
+	}
+	for _, f := range p.Funcs {
+		var worldStores, clears []*ssa.Store
+		for _, b := range f.Blocks {
+			for _, in := range b.Instrs {
+				st, ok := in.(*ssa.Store)
+				if !ok {
+					continue
+				}
+				if isF, v := isFlagStore(st); isF {
+					switch v {
+					case "false":
+						clears = append(clears, st)
+					default:
+						// set (or computed): only here, after the loop has run to completion
+						if f != fn || !(rl.doneBB == b || rl.doneBB.Dominates(b)) {
+							return false
+						}
+					}
+				}
+				if fa, isFA := st.Addr.(*ssa.FieldAddr); isFA && fieldName(fa) == "world" && types.Identical(deref(fa.X.Type()), recvT) {
+					if _, fresh := fa.X.(*ssa.Alloc); !fresh {
+						worldStores = append(worldStores, st)
+					}
+				}
+			}
+		}
+		for _, ws := range worldStores {
+			ok := p.replacedUnderCleanFlag(fn, f, ws, fname, recvT, rl)
+			for _, cl := range clears {
+				if cl.Block() == ws.Block() || cl.Block().Dominates(ws.Block()) {
+					ok = true
+					continue
+				}
+				// every exit after the replacement passes the clearing store
+				all := true
+				for _, ret := range returnsOf(f) {
+					if reachAvoiding(ws.Block(), ret.Block(), blockSet{cl.Block(): true}) {
+						all = false
+					}
+				}
+				if all {
+					ok = true
+				}
+			}
+			if !ok {
+				return false
+			}
+		}
+	}
+	return true
+}
+
+// replacedUnderCleanFlag: the world is replaced at ws (in function f) only where another boolean field D of the
+// receiver is false, and D is implied by the loaded flag: in fn, D = true dominates the store that sets the flag,
+// and every function that clears D also clears the flag. So where D is false the flag is false as well.
+func (p *Prog) replacedUnderCleanFlag(fn, f *ssa.Function, ws *ssa.Store, flagName string, recvT types.Type, rl *rangeLoop) bool {
+	for _, g := range guardsOf(ws.Block()) {
+		u, ok := g.cond.(*ssa.UnOp)
+		if !ok || u.Op != token.MUL || g.val {
+			continue
+		}
+		fa, ok := u.X.(*ssa.FieldAddr)
+		if !ok || fa.X != ssa.Value(f.Params[0]) || fieldName(fa) == flagName {
+			continue
+		}
+		if b, isB := u.Type().Underlying().(*types.Basic); !isB || b.Kind() != types.Bool {
+			continue
+		}
+		dName := fieldName(fa)
+		storesOf := func(g2 *ssa.Function, name string) (sets, clears []*ssa.Store) {
+			for _, b := range g2.Blocks {
+				for _, in := range b.Instrs {
+					st, ok := in.(*ssa.Store)
+					if !ok {
+						continue
+					}
+					fa2, ok := st.Addr.(*ssa.FieldAddr)
+					if !ok || fieldName(fa2) != name || !types.Identical(deref(fa2.X.Type()), recvT) {
+						continue
+					}
+					if k, isK := st.Val.(*ssa.Const); isK && k.Value != nil && k.Value.String() == "false" {
+						clears = append(clears, st)
+					} else {
+						sets = append(sets, st)
+					}
+				}
+			}
+			return
+		}
+		// (b) in fn, D = true dominates every store that sets the flag
+		dSets, _ := storesOf(fn, dName)
+		fSets, _ := storesOf(fn, flagName)
+		okB := len(fSets) > 0
+		for _, fs := range fSets {
+			dom := false
+			for _, ds := range dSets {
+				if k, isK := ds.Val.(*ssa.Const); isK && k.Value != nil && k.Value.String() == "true" && instrDominates(ds, fs) {
+					dom = true
+				}
+			}
+			if !dom {
+				okB = false
+			}
+		}
+		// (c) whoever clears D clears the flag too
+		okC := true
+		for _, g2 := range p.Funcs {
+			_, dClears := storesOf(g2, dName)
+			if len(dClears) == 0 {
+				continue
+			}
+			_, fClears := storesOf(g2, flagName)
+			for _, dc := range dClears {
+				has := false
+				for _, fc := range fClears {
+					if fc.Block() == dc.Block() || fc.Block().Dominates(dc.Block()) || dc.Block().Dominates(fc.Block()) {
+						has = true
+					}
+				}
+				if !has {
+					okC = false
+				}
+			}
+		}
+		if okB && okC {
+			return true
+		}
+	}
+	return false
 }
 
 // dominatedUnconditionally: blk is reached on every path from the entry that does not end in an error return,
